@@ -43,14 +43,16 @@ KINDS = {
     'l': ('List(Int32)', None, None, [1, 2], False),
 }
 QUICK_KINDS = ['r', 'n', 'd', 'e', 'b', 'g', 't', 'x', 'z', 'w', 'a']
+LEN4_KINDS = ['r', 'n', 'd', 't', 'x', 'a']
 ALL_KINDS = list(KINDS)
 
 
 def struct_shapes(tier):
-    kinds = QUICK_KINDS if tier == 'quick' else ALL_KINDS
     maxlen = 3 if tier == 'quick' else 4
     out = []
     for n in range(1, maxlen + 1):
+        # thorough: every kind up to length 3, the quick kinds at length 4 (18^4 sequences would be one spec of 400k structs)
+        kinds = QUICK_KINDS if tier == 'quick' else (LEN4_KINDS if n == 4 else ALL_KINDS)
         for seq in itertools.product(kinds, repeat=n):
             splits = [(n,)]
             if n >= 2:
@@ -58,6 +60,8 @@ def struct_shapes(tier):
                 splits.append((n - 1, 1))
             if n >= 3:
                 splits.append((1, 1, n - 2))
+            if n == 4:
+                splits = [(n,), (1, n - 1), (1, 1, n - 2)]
             if tier == 'quick' and n == 3:
                 # the interleavings that matter: keep every sequence flat, and inheritance splits for sequences mixing required/optional
                 if all(KINDS[k][4] for k in seq) or not any(KINDS[k][4] for k in seq):
@@ -629,7 +633,7 @@ def run(tier, seed):
         rtbase.universe_failure(r, PROP, e)
         return r.finish('client universe could not be built')
     items = [('struct', i) for i in range(len(u['routes']))] + [('extra', i) for i in range(len(u['extra']))] + [('layout', 0)]
-    r.bounds.update({'struct_argument_shapes': len(u['shapes']), 'field_kinds': {k: KINDS[k][:2] for k in (QUICK_KINDS if tier == 'quick' else ALL_KINDS)},
+    r.bounds.update({'struct_argument_shapes': len(u['shapes']), 'field_kinds': {k: KINDS[k][:2] for k in (QUICK_KINDS if tier == 'quick' else ALL_KINDS)}, 'kinds_at_length_4': None if tier == 'quick' else LEN4_KINDS,
                      'max_fields': 3 if tier == 'quick' else 4, 'union_and_void_routes': len(u['extra']), 'versions': [1, 2, 3],
                      'deprecation': ['none', 'plain', 'by'], 'styles': ['rpc', 'upload', 'download'], 'calls': ['all-positional', 'all-keyword', 'required-only']})
     r.sample({'shape': u['shapes'][10], 'fields': u['structs']['A10'], 'route': u['routes'][10]})
